@@ -99,6 +99,11 @@ def do_case(ctx, inp):
             ctx.fail("round-trip-changes-evaluation", {"sigma": s, "before": list(map(int, v1)), "after": list(map(int, v2)), "json": j},
                      known=F16F if siblings_equal_as_json(o) else None); return
     ex = explicit_ids(a)
+    if has_derive(a):
+        # a model that is the output of assume() / reduce() / negate() / a round trip: which ids count as given is what the
+        # object itself says (assume and reduce keep a node's id by naming it — it can no longer be derived from the changed
+        # content —, so it is an explicit id from then on); for freshly built models the caller's own ids stay the yardstick
+        ex = {n["id"] for n in subs(t) if n["k"] == "node" and not n["gen"]}
     kept = {n["id"] for n in subs(t2) if n["k"] == "node"}
     present = {n["id"] for n in subs(t) if n["k"] == "node"}
     lost = sorted((ex & present) - kept)
@@ -240,4 +245,8 @@ def run(ctx):
             a, o, t = valid_configurator(rng, ctx.quick, nest_p=0.3 if rng.random() < 0.65 else 0.9, odd_items_p=0.25, multi_default_p=0.5)
         else:
             a, o, t = gen_valid(rng, ctx.quick, classes=[c for c in CLASSES if not c.startswith("cc")], wide_p=0.02, empty_p=0.04)
+            if rng.random() < 0.15:
+                # the model is the OUTPUT of another operation (assume / reduce / negate / Not / Imply / a JSON, base64, pickle or
+                # deepcopy round trip, one or two of them) applied to a generated valid model
+                a, o, t = gen_derived(rng, ctx.quick, classes=[c for c in CLASSES if not c.startswith("cc")]); ctx.tags["derived-model-stream"] += 1
         do_case(ctx, {"ast": a})
